@@ -134,7 +134,7 @@ impl Property for C12 {
             .boxed()
     }
     fn budget(&self, tier: Tier) -> Budget {
-        Budget::new(tier.pick(200_000, 4_000_000), tier.pick(8, 16)).min_nontrivial(tier.pick(10_000, 200_000))
+        Budget::new(tier.pick(60_000, 4_000_000), tier.pick(8, 16)).min_nontrivial(tier.pick(5_000, 200_000))
     }
     fn rule(&self) -> String {
         "1-4 key columns of generated Arrow types (nested to depth 2, dictionary / run-end wrapped), 0-40 rows from small value pools, each column rendered under two \
